@@ -18,8 +18,8 @@ Follows the source:
 * `index_at` → `indexAt`
 * attribute refresh `_set_sampling` → `setSampling`;  `Frequency(1.0/(float(Δ)/f), unit)` → `rateOf`
 
-`Cfg` switches select, branch by branch, the behaviour of the unrepaired source (`current`) or
-the intended/repaired one (`fixed`).  Theorems are about `fixed`; `current` is used for the
+`Cfg` switches select, branch by branch, the behaviour of the unrepaired source (`current` = the
+snapshot, `head8` = after the first eight repairs) or the intended/repaired one (`fixed`).  Theorems are about `fixed`; `current` is used for the
 counterexample theorems and is also run against the implementation.
 Not modelled: the sample *buffer* sharing between a slice (a numpy view) and its parent — the
 parent of a slice is dropped from the state.
